@@ -94,10 +94,13 @@ def one(ctx, i):
         units = CE.random_units(rng)
         for a, u in units.items():
             ctx.seen('unit_values', f'{a}={u}')
-        kind = rng.choice(['grid', 'mid', 'random', 'end'] if rng.random() < 0.9 else ['end'])
+        kind = rng.choice(['grid', 'mid', 'random', 'end', 'near'] if rng.random() < 0.9 else ['end'])
         k = rng.randrange(tr.n - 1)
+        # 'near': a few millionths of the elapsed time away from a recorded instant (still strictly between two instants): the
+        # answer is the interpolation there, not the neighbouring sample
+        near_t = tr.time[k + 1] - min(4e-6 * tr.time[k + 1], 0.3 * (tr.time[k + 1] - tr.time[k]))
         ts = {'grid': tr.time[k], 'mid': (tr.time[k] + tr.time[k + 1]) / 2, 'random': tr.time[k] + rng.random() * (tr.time[k + 1] - tr.time[k]),
-              'end': rng.choice([tr.time[0], tr.time[-1]])}[kind]
+              'end': rng.choice([tr.time[0], tr.time[-1]]), 'near': near_t}[kind]
         tu = rng.choice(SI.units('Time'))
         if kind == 'end' or (kind == 'grid' and rng.random() < 0.5):
             # the recorded instant itself (raw value and unit): an end point re-expressed in another unit may round to just
